@@ -46,3 +46,19 @@ Theorem C17_contains_any : forall s c, contains_any fold121 s c = (0 <=? index_a
 Proof. reflexivity. Qed.
 Theorem C17_contains_non_ascii : forall s, contains_non_ascii s = (0 <=? index_non_ascii s).
 Proof. reflexivity. Qed.
+
+(* searching for a code point is searching for its encoding; searching for an ASCII byte is
+   searching for the one-byte string *)
+From Strcase Require Import SpecRel2.
+Theorem C17_index_rune_is_index : forall s r, valid_rune r = true ->
+  index_rune fold121 s r = index fold121 s (encode r).
+Proof. exact (index_rune_is_index fold121). Qed.
+Print Assumptions C17_index_rune_is_index.
+
+Theorem C17_index_rune_is_index_any : forall s r, valid_rune r = true ->
+  index_rune fold121 s r = index_any fold121 s (encode r).
+Proof. exact (index_rune_is_index_any fold121). Qed.
+
+Theorem C17_index_byte_is_index : forall s c, wf s -> 0 <= c < 128 -> index_byte s c = index fold121 s [c].
+Proof. exact (index_byte_is_index fold121 ascii_cands_exact). Qed.
+Print Assumptions C17_index_byte_is_index.
